@@ -22,7 +22,8 @@ const (
 	mCb0     = 100  // +n: n-th exit callback invocation: 10*cbIndex + errcode
 )
 
-var errM = fmt.Errorf("machine-routine-error")
+// errM wraps context.Canceled: it is the routine's own failure all the same (the instance's context is live when it returns it)
+var errM = fmt.Errorf("machine-routine-error: %w", context.Canceled)
 
 func mErrCode(err error) int64 {
 	switch err {
@@ -342,6 +343,9 @@ func machineBody(depth int, alphabet []int, stateVariant bool) func() {
 			running := currentInstance() >= 0
 			if running != (m.st == sRunning) {
 				bad("C14.status", "an instance with a live context is executing: %v, reference machine status %d", running, m.st)
+				if running {
+					bad("C05.live-without-reason", "an instance with a live context is executing although the reference machine has no running instance (status %d: no context, no routine or exited)", m.st)
+				}
 				return
 			}
 			// exit callbacks: the current instance's exit is reported once to each callback
@@ -396,20 +400,20 @@ func init() {
 	base := []int{aSetRoutine, aCtxSameF, aCtxSameT, aCtxFreshF, aCtxFreshT, aClear, aRestart, aExitNil, aExitErr, aFire, aProbeF, aProbeT}
 	ops := map[int32]string{oOp: "letter", oEnter: "enter", oExit: "exit", oVal: "backoff"}
 	eng.Register(&eng.Scenario{
-		Name: "routine-machine", Props: []string{"C14"}, QuickOnly: true, Det: true, Manual: true, NoRace: true, ObsNames: ops,
+		Name: "routine-machine", Props: []string{"C14", "C05"}, QuickOnly: true, Det: true, Manual: true, NoRace: true, ObsNames: ops,
 		Doc:   "RoutineContainer: every sequence of 5 operations over {SetRoutine(new), SetContext(same|fresh, restart f|t), ClearContext, RestartRoutine, ExitCurrent(nil|E), FireRetryTimers, WaitExited probes} x {no back-off, constant, stop after one interval, constant zero interval}; entries, running status, exit callbacks, WaitExited results and back-off calls compared with a reference machine after every operation",
 		Quick: eng.Bounds{PB: 0, Cap: 8000000}, Thorough: eng.Bounds{PB: 0},
 		Body: machineBody(5, base, false),
 	})
 	eng.Register(&eng.Scenario{
-		Name: "routine-machine-deep", Props: []string{"C14"}, ThoroughOnly: true, Det: true, Manual: true, NoRace: true, ObsNames: ops,
+		Name: "routine-machine-deep", Props: []string{"C14", "C05"}, ThoroughOnly: true, Det: true, Manual: true, NoRace: true, ObsNames: ops,
 		Doc:   "RoutineContainer: as routine-machine with sequences of 7 operations plus SetRoutine(nil)",
 		Quick: eng.Bounds{PB: 0}, Thorough: eng.Bounds{PB: 0, Cap: 400000000},
 		Body: machineBody(7, append(append([]int{}, base...), aSetRoutineNil), false),
 	})
 	stateAlpha := []int{aState1, aState2, aState0, aCtxSameT, aCtxFreshF, aCtxFreshT, aClear, aRestart, aExitNil, aExitErr, aFire, aProbeF}
 	eng.Register(&eng.Scenario{
-		Name: "sroutine-machine", Props: []string{"C14"}, Det: true, Manual: true, NoRace: true, ObsNames: ops,
+		Name: "sroutine-machine", Props: []string{"C14", "C05"}, Det: true, Manual: true, NoRace: true, ObsNames: ops,
 		Doc:   "StateRoutineContainer: every sequence of 5 (quick) operations over {SetState(1|2|0), SetContext, ClearContext, RestartRoutine, ExitCurrent(nil|E), FireRetryTimers, WaitExited probe} x back-off configurations against the same reference machine",
 		Quick: eng.Bounds{PB: 0, Cap: 8000000}, Thorough: eng.Bounds{PB: 0, Cap: 8000000},
 		Body: machineBody(5, stateAlpha, true),
